@@ -7,6 +7,7 @@ theorems, extracted checkers) evaluated on every answer of the C code."""
 import concurrent.futures as cf
 import glob
 import os
+import random
 import re
 
 from hv import common as C
@@ -201,7 +202,7 @@ def check(run, replay=None):
                 budget = 900 if nobj <= 40 else (220 if nobj <= 200 else 90)
             else:
                 budget = 3000 if nobj <= 40 else (800 if nobj <= 200 else 250)
-            cases.append((name, kind, setup, G.gen_queries(run.rng, t, run.tier, budget)))
+            cases.append((name, kind, setup, G.gen_queries(random.Random("C09/%d/%s" % (run.seed, name)), t, run.tier, budget)))
     results = run_scripts(exe, drv, cases)
     judge(run, cases, results)
     run.cov["rule"] = ("one evaluation = one helper call on one topology; distinct = distinct (topology, query, C answer); "
